@@ -431,7 +431,11 @@ func (g *G) applyTemplate(property string, p *grl.Program, facts *grl.Facts) str
 			return "retract"
 		}
 	case "C14", "C15":
-		switch g.R.Intn(4) {
+		switch g.R.Intn(5) {
+		case 4:
+			if property == "C14" && g.breakTemplate(p, facts) {
+				return "break"
+			}
 		case 3:
 			if property == "C14" && g.repairTemplate(p, facts) {
 				return "repair"
@@ -450,6 +454,54 @@ func (g *G) applyTemplate(property string, p *grl.Program, facts *grl.Facts) str
 }
 
 var _ = core.Mix
+
+// breakTemplate (C14): the opposite of repair. A condition `L op R` whose LEFT operand evaluates fine at first
+// and fails after another rule's action (an index moved out of range, a key that no longer exists), while the
+// RIGHT operand alone would decide the outcome (true for ||, false for &&) and is still remembered. The
+// condition as a whole fails to evaluate: the rule is not a candidate, or the error is returned.
+func (g *G) breakTemplate(p *grl.Program, facts *grl.Facts) bool {
+	if facts.F == nil || facts.G == nil {
+		return false
+	}
+	f := g.R.PickStr("F", "G")
+	var left *grl.Expr
+	var breaker *grl.Action
+	if g.R.Chance(1, 2) {
+		// slice index: in range now, out of range after the breaker fired
+		if f == "F" {
+			facts.F.I8 = int8(g.R.Intn(3))
+		} else {
+			facts.G.I8 = int8(g.R.Intn(3))
+		}
+		left = grl.Bin(">=", grl.PathE(grl.P(f+".A").Idx(grl.PathE(grl.P(f+".I8")))), grl.LitInt(-1000))
+		breaker = &grl.Action{K: "assign", Path: grl.P(f + ".I8"), Op: "=", E: grl.LitInt(g.R.PickInt64(3, 9, -1))}
+	} else {
+		// map key: present now, absent after the breaker fired
+		if f == "F" {
+			facts.F.S2 = "k1"
+		} else {
+			facts.G.S2 = "k1"
+		}
+		left = grl.Bin(">=", grl.PathE(grl.P(f+".M").Idx(grl.PathE(grl.P(f+".S2")))), grl.LitInt(-1000))
+		breaker = &grl.Action{K: "assign", Path: grl.P(f + ".S2"), Op: "=", E: grl.LitStr("gone")}
+	}
+	op := g.R.PickStr("||", "&&")
+	right := grl.Bin("==", grl.PathE(grl.P(f+".B")), grl.LitBool(true))
+	if f == "F" {
+		facts.F.B = op == "||"
+	} else {
+		facts.G.B = op == "||"
+	}
+	if op == "&&" {
+		// the rule is not satisfied anyway; what must happen is the error under ReturnErrOnFailedRuleEvaluation
+		right = grl.Bin("==", grl.PathE(grl.P(f+".B")), grl.LitBool(true))
+	}
+	p.Rules = append(p.Rules,
+		&grl.Rule{Name: "Bk", Salience: sal(9), When: grl.LitBool(true), Then: []*grl.Action{breaker, {K: "retract", Name: "Bk"}}},
+		&grl.Rule{Name: "Vc", Salience: sal(int64(g.R.Intn(3))), When: grl.Bin(op, left, right),
+			Then: []*grl.Action{{K: "assign", Path: grl.P(f + ".AS").Idx(grl.LitInt(2)), Op: "+=", E: grl.LitStr("vc")}, {K: "retract", Name: "Vc"}}})
+	return true
+}
 
 // nanTemplate: `/` is the real quotient, so 0/0 is NaN and x/0 is an infinity - legal values on which
 // every ordered comparison with NaN is false and only `!=` is true. Rules compare such a quotient in all
